@@ -249,7 +249,7 @@ KNOWN = [
      'what_fails': "reindent: 'GROUP  BY' written with two blanks / a tab / a newline between the words is one Keyword token whose "
                    "normalized value does not contain the split word 'GROUP BY', so no line break is put before it "
                    "('ORDER  BY' is still broken, by accident: it contains 'OR')"},
-    {'id': 'C07-RX-1', 'property': 'C07', 'status': 'open', 'class': 'stripws-parenthesis-swallowed',
+    {'id': 'C07-RX-1', 'property': 'C07', 'status': 'fixed', 'class': 'stripws-parenthesis-swallowed',
      'witness': '(as)',
      'what_fails': "format('(as)', reindent=True) (also strip_whitespace=True; also '(::)', 'f( as )') raises IndexError in "
                    "StripWhitespaceFilter._stripws_parenthesis: group_as/group_typecasts wrap '(', the keyword and ')' into one "
